@@ -372,9 +372,70 @@ func checkCountsPerPass(c *Ctx, fn *ssa.Function) {
 	c.Floor("C07-R3", "input-kind counts handed to the estimator inside the retry loop", n, 4)
 }
 
+// checkFeeFormula: a rate per 1000 bytes is applied to a size by multiplying first and dividing by the scale
+// last; dividing the rate (or the size) first truncates it to whole units per byte and the fee falls below the
+// requested rate for every rate that is not a multiple of the scale.
+func checkFeeFormula(c *Ctx) {
+	_ = c.P
+	fn := pkgFn(c, "C07-R3", "wallet/txrules", "FeeForSerializeSize")
+	if fn == nil {
+		return
+	}
+	n := 0
+	for _, b := range fn.Blocks {
+		for _, ins := range b.Instrs {
+			q, ok := ins.(*ssa.BinOp)
+			if !ok || q.Op != token.QUO {
+				continue
+			}
+			n++
+			// the dividend is the product of both parameters
+			params := map[int]bool{}
+			var walk func(v ssa.Value, depth int)
+			hasMul := false
+			walk = func(v ssa.Value, depth int) {
+				v = stripConv(v)
+				if depth > 6 {
+					return
+				}
+				switch x := v.(type) {
+				case *ssa.Parameter:
+					params[paramIndex(fn, x)] = true
+				case *ssa.BinOp:
+					if x.Op == token.MUL {
+						hasMul = true
+					}
+					walk(x.X, depth+1)
+					walk(x.Y, depth+1)
+				}
+			}
+			walk(q.X, 0)
+			okDividend := hasMul && len(params) == 2
+			// and the quotient is not multiplied again
+			okUse := true
+			for _, u := range usesOf(q) {
+				if bo, ok := u.(*ssa.BinOp); ok && bo.Op == token.MUL {
+					okUse = false
+				}
+				if cv, ok := u.(*ssa.Convert); ok {
+					for _, u2 := range usesOf(cv) {
+						if bo, ok := u2.(*ssa.BinOp); ok && bo.Op == token.MUL {
+							okUse = false
+						}
+					}
+				}
+			}
+			c.Check("C07-R3", "fee-multiplies-before-dividing-by-scale", q.Pos(), okDividend && okUse,
+				"FeeForSerializeSize divides before it has multiplied rate and size (rate/1000*size instead of rate*size/1000): the rate is truncated to whole satoshi per byte, so e.g. 1999 sat/kvB is charged as 1 sat/vB — the fee falls below the requested rate")
+		}
+	}
+	c.Floor("C07-R3", "divisions in FeeForSerializeSize", n, 1)
+}
+
 func checkAuthor(c *Ctx, fn *ssa.Function) {
 	p := c.P
 	checkCountsPerPass(c, fn)
+	checkFeeFormula(c)
 	// the change output value: NewTxOut(int64(changeAmount), script)
 	var newTxOut *ssa.Call
 	for _, call := range callsNamed(fn, "NewTxOut") {
@@ -684,6 +745,58 @@ func checkFeePlumbing(c *Ctx) {
 		}
 	}
 	c.Floor("C07-R4", "address types with a change script size", n, 4)
+	// the size is selected by the address type the change address will really have: when the function consults the
+	// account's address-schema override at all, the value the size switch compares must incorporate it (an override
+	// applied only after the size was chosen leaves the estimate on the scope's default change type)
+	readsOverride := false
+	for _, b := range cs.Blocks {
+		for _, ins := range b.Instrs {
+			if fa, ok := ins.(*ssa.FieldAddr); ok {
+				if _, f := fieldAddrName(fa); f == "AddrSchema" {
+					readsOverride = true
+				}
+			}
+		}
+	}
+	if readsOverride {
+		nCmp, okAll := 0, true
+		for _, b := range cs.Blocks {
+			for _, ins := range b.Instrs {
+				bo, ok := ins.(*ssa.BinOp)
+				if !ok || bo.Op != token.EQL {
+					continue
+				}
+				cst, ok := bo.Y.(*ssa.Const)
+				if !ok {
+					continue
+				}
+				if nm, ok := cst.Type().(*types.Named); !ok || nm.Obj().Name() != "AddressType" {
+					continue
+				}
+				nCmp++
+				has := false
+				for _, o := range (&Slicer{P: p}).Origins(bo.X) {
+					if _, f, base, okf := fieldOf(o); okf && f == "InternalAddrType" {
+						for _, o2 := range (&Slicer{P: p, ThroughDeref: true}).Origins(base) {
+							if _, f2, _, ok2 := fieldOf(o2); ok2 && f2 == "AddrSchema" {
+								has = true
+							}
+						}
+						if fa, ok := base.(*ssa.UnOp); ok {
+							if _, f2, _, ok2 := fieldOf(fa); ok2 && f2 == "AddrSchema" {
+								has = true
+							}
+						}
+					}
+				}
+				if !has {
+					okAll = false
+				}
+			}
+		}
+		c.Check("C07-R4", "change-script-size-honours-schema-override", cs.Pos(), nCmp > 0 && okAll,
+			"the change script size is selected from an address type that does not incorporate the account's AddrSchema override (the override is read, but only applied elsewhere): for accounts whose change address type differs from the scope default the fee is computed for the wrong change output size")
+	}
 }
 
 // guardFormsEq: names of AddressType constants X such that block b is reached only when addrType == X (switch arm).
